@@ -153,6 +153,34 @@ Do(op, u, a, b) ==
   /\ ttl' = TtlAfter(st, op, u)
 
 -------------------------------------------------------------------------------
+(* Multi-key commands on kv tuples (MGET, EXISTS k1 k2 .., DEL k1 k2 .., MSET) and the    *)
+(* partial whole-table delete DeleteTableRange [start, end).  A slot of a multi-key       *)
+(* command is a kv tuple, or an INVALID name (code <= 0: no ':' separator, empty table,   *)
+(* over-long key): per slot the answer is the value of exactly that tuple (-1 = nil),     *)
+(* nil or an error for an invalid name - never another tuple's value.                     *)
+SlotVal(s, x) == IF s[x] = <<>> THEN -1 ELSE s[x][1][1]
+MGetOK(s, ks, rl) ==
+  /\ Len(rl) = Len(ks)
+  /\ \A i \in 1..Len(ks) : IF ks[i] > 0 THEN rl[i] = SlotVal(s, ks[i]) ELSE rl[i] \in {-1, -998}
+\* EXISTS counts every slot that names an existing key (a key named twice counts twice)
+MExists(s, ks) == Cardinality({i \in 1..Len(ks) : ks[i] > 0 /\ s[ks[i]] # <<>>})
+\* DEL removes the named keys and answers how many existed (each key once)
+MDelAfter(s, ks) == [x \in Tups |-> IF x \in ToSet(ks) THEN <<>> ELSE s[x]]
+MDelReply(s, ks) == Cardinality({x \in ToSet(ks) : x > 0 /\ s[x] # <<>>})
+\* MSET k v k v ..: the last value given for a key wins
+MSetAfter(s, ks, vs) ==
+  [x \in Tups |-> IF x \in ToSet(ks)
+                  THEN LET i == CHOOSE i \in 1..Len(ks) : ks[i] = x /\ \A j \in 1..Len(ks) : ks[j] = x => j <= i
+                       IN << <<vs[i], 0>> >>
+                  ELSE s[x]]
+\* DeleteTableRange of table t from key position lo (0 = from the start) to hi exclusive (0 = to the
+\* end): kv / hash / list / set / zset data of exactly those keys (the scope its code comment gives)
+InKeyRange(k, lo, hi) == (lo = 0 \/ k >= lo) /\ (hi = 0 \/ k < hi)
+DelRangeAfter(s, t, lo, hi) ==
+  [x \in Tups |-> IF TabOf(x) = t /\ TyOf(x) <= 5 /\ InKeyRange(KeyOf(x), lo, hi) THEN <<>> ELSE s[x]]
+MultiOps == {"mget", "mexists", "mdel", "mset", "delrange"}
+
+-------------------------------------------------------------------------------
 (* Limit probes.  The documented size limits (doc/user-guide.md: values up to 8 MB; *)
 (* common/limit.go: "max key size" 10240, "subkey length for hash/set/zset" 10240,  *)
 (* "max value size" 8 MiB) are constants of the model.  A command whose key,        *)
